@@ -11,6 +11,7 @@ import (
 	"sort"
 	"strings"
 	"sync"
+	"syscall"
 	"time"
 
 	v1 "k8s.io/api/core/v1"
@@ -42,6 +43,15 @@ var (
 	podGVR      = schema.GroupVersionResource{Version: "v1", Resource: "pods"}
 	podGroupGVR = schema.GroupVersionResource{Group: "scheduling.run.ai", Version: "v2alpha2", Resource: "podgroups"}
 )
+
+// processCPU is the CPU time (user + system) this process has consumed so far.
+func processCPU() time.Duration {
+	var ru syscall.Rusage
+	if err := syscall.Getrusage(syscall.RUSAGE_SELF, &ru); err != nil {
+		return 0
+	}
+	return time.Duration(ru.Utime.Nano() + ru.Stime.Nano())
+}
 
 func initScheduler() {
 	initOnce.Do(func() {
@@ -350,6 +360,8 @@ type CycleRecord struct {
 	OpenErr           string
 	Panic             string
 	Hung              bool
+	HangKind          string
+	Starved           bool // gave up waiting for CPU time: inconclusive, never a verdict
 	FailedBindCreates []string
 	FailedPodDeletes  []string
 	Duration          time.Duration
@@ -497,16 +509,44 @@ func RunCycle(s *Store, cfg *Config, sc *CycleScript, idx int, opt *Options) *Cy
 			}
 		}()
 	}()
-	timeout := 30 * time.Second
+	// Watchdog. Wall-clock time says nothing on a loaded machine, so a cycle is declared hung only on evidence
+	// that does not depend on load: it has burnt far more CPU than any terminating cycle needs (spinning), or
+	// the whole process has not used any CPU for a long stretch (blocked). A cycle that merely does not get
+	// the CPU is waited for; after a very long wall-clock time the case is given up as inconclusive (Starved).
+	cpuBudget := 20 * time.Second
 	if opt != nil && opt.CycleTimeout > 0 {
-		timeout = opt.CycleTimeout
+		cpuBudget = opt.CycleTimeout
 	}
-	select {
-	case <-done:
-	case <-time.After(timeout):
-		rec.Hung = true
+	startCPU := processCPU()
+	lastCPU, lastAdvance := startCPU, time.Now()
+	tick := time.NewTicker(50 * time.Millisecond)
+watch:
+	for {
+		select {
+		case <-done:
+			break watch
+		case <-tick.C:
+			now := processCPU()
+			if now-startCPU > cpuBudget {
+				rec.Hung = true
+				rec.HangKind = fmt.Sprintf("spinning: %v of CPU consumed without finishing (a typical cycle needs 10-50 ms)", (now - startCPU).Round(time.Second))
+				break watch
+			}
+			if now-lastCPU > 20*time.Millisecond {
+				lastCPU, lastAdvance = now, time.Now()
+			} else if time.Since(lastAdvance) > 90*time.Second {
+				rec.Hung = true
+				rec.HangKind = "blocked: the process used no CPU for 90 s while the cycle had not finished"
+				break watch
+			}
+			if time.Since(start) > 30*time.Minute {
+				rec.Starved = true
+				break watch
+			}
+		}
 	}
-	if !rec.Hung {
+	tick.Stop()
+	if !rec.Hung && !rec.Starved {
 		waitQuiescent(s)
 	}
 	close(stopCh)
@@ -762,7 +802,7 @@ func Run(w *World, opt *Options) *History {
 	for i := range w.Cycles {
 		rec := RunCycle(store, &w.Config, &w.Cycles[i], i, opt)
 		h.Cycles = append(h.Cycles, rec)
-		if rec.Hung || rec.Panic != "" {
+		if rec.Hung || rec.Starved || rec.Panic != "" {
 			break
 		}
 		EnvStep(store, &w.Cycles[i], i, rec)
